@@ -265,11 +265,30 @@ Record ops (T : Type) := mkops {
   dfl : T }.
 Arguments lin {T}. Arguments avg {T}. Arguments dfl {T}.
 
+(* S: element rules.  Integer dtypes hold integers (Qfloor is the identity on them): the interpolant is
+   truncated toward zero on store, block sums are floor-divided. *)
 Definition ops_elem (k : dkind) : ops Q :=
   match k with
   | DFloat => mkops Q (fun t a b => (a + t * (b - a))%Q) (fun l f => (sumQ l / inject_Z f)%Q) 0%Q
-  | DInt => mkops Q (fun t a b => inject_Z (Qtrunc (a + t * (b - a))%Q))
+  | DInt => mkops Q (fun t a b => let a' := inject_Z (Qfloor a) in let b' := inject_Z (Qfloor b) in
+                                  inject_Z (Qtrunc (a' + t * (b' - a'))%Q))
                     (fun l f => inject_Z (Qfloor (sumQ l / inject_Z f)%Q)) 0%Q
+  end.
+(* M: element rules of rebin.py.  The integer path of the expanding branch is GENERATED
+   (num = lo*m + (i % m)*(hi - lo); q = abs(num)//m; q[num < 0] *= -1, on astype('i8') copies); it is
+   instantiated at the weight's own numerator and denominator (i', m') = the weight (i mod m)/m in lowest
+   terms -- the value depends on the ratio only (C14_rebin_int_path_is_truncation). *)
+Definition expand_int_path (t : Q) (a b : Q) : Q :=
+  let lo := Qfloor a in
+  let hi := Qfloor b in
+  let m := Zpos (Qden t) in
+  let num := rebin_expand_int_num lo hi m (Qnum t) in
+  let q := rebin_expand_int_q num m in
+  inject_Z (if rebin_expand_int_negate num then q * -1 else q).
+Definition ops_gen (k : dkind) : ops Q :=
+  match k with
+  | DFloat => mkops Q (fun t a b => (a + t * (b - a))%Q) (fun l f => (sumQ l / inject_Z f)%Q) 0%Q
+  | DInt => mkops Q expand_int_path (fun l f => inject_Z (Qfloor (sumQ l / inject_Z f)%Q)) 0%Q
   end.
 (* the same operations acting element-wise on sub-arrays (axis 0 of a 2-D / 3-D array) *)
 Definition ops_lift {T} (o : ops T) : ops (list T) :=
@@ -287,27 +306,29 @@ Section RebinAxis.
   Definition getT (xs : list T) (j : Z) : T := if j <? 0 then dfl o else nth (Z.to_nat j) xs (dfl o).
 
   (* M: one pass of the `for k` loop of rebin() along the leading axis of xs, new extent d.
-     Branch selectors and the shrinking branch's integer expressions are GENERATED (Generated/Rebin.v).
-     p = f*i with f = d0/d is computed exactly here (the Python computes it in doubles); the
-     fraction p - fp is put in lowest terms (Qred) so that M and S agree syntactically. *)
+     Branch selectors, loop bounds, the subscript fp, the numerator / denominator of p, the `p < bound` bound,
+     the two neighbour subscripts and the shrinking branch's integer expressions are all GENERATED
+     (Generated/Rebin.v); p itself is the exact rational num/den (a double in the Python), and the
+     weight p - fp is put in lowest terms (Qred) so that M and S agree syntactically. *)
   Definition rebin_axis (sample : bool) (xs : list T) (d : Z) : list T :=
     let d0 := lenZ xs in
     if rebin_is_expand d0 d then
-      let f := (inject_Z d0 / inject_Z d)%Q in
       map (fun t => let i := Z.of_nat t in
-                    let p := (f * inject_Z i)%Q in
-                    let fp := Qfloor p in
-                    if sample then getT xs fp
-                    else if Qlt_bool p (inject_Z (d0 - 1)) then lin o (Qred (p - inject_Z fp)) (getT xs fp) (getT xs (fp + 1))
-                         else getT xs fp)
-          (seq 0 (Z.to_nat d))
-    else if rebin_is_keep d0 d then xs
+                    let fp := rebin_expand_fp d0 d i in
+                    let p := (inject_Z (rebin_expand_p_num d0 d i) / inject_Z (rebin_expand_p_den d0 d i))%Q in
+                    if sample then getT xs (rebin_expand_lo fp)
+                    else if Qlt_bool p (inject_Z (rebin_expand_interp_bound d0 d))
+                         then lin o (Qred (p - inject_Z fp)) (getT xs (rebin_expand_lo fp)) (getT xs (rebin_expand_hi fp))
+                         else getT xs (rebin_expand_lo fp))
+          (seq 0 (Z.to_nat (rebin_expand_count d0 d)))
+    else if rebin_is_keep d0 d then
+      map (fun t => getT xs (rebin_keep_src (Z.of_nat t))) (seq 0 (Z.to_nat (rebin_keep_count d0 d)))
     else
       let f := rebin_shrink_f d0 d in
       map (fun t => let i := Z.of_nat t in
                     if sample then getT xs (rebin_shrink_pick f i)
                     else avg o (pyslice xs (rebin_shrink_lo f i) (rebin_shrink_hi f i)) f)
-          (seq 0 (Z.to_nat d)).
+          (seq 0 (Z.to_nat (rebin_shrink_count d0 d))).
 
   (* S: IDL REBIN along one axis, integer subscript arithmetic only *)
   Definition rebin_axis_spec (sample : bool) (xs : list T) (d : Z) : list T :=
@@ -355,6 +376,7 @@ Definition shape3 (x : list (list (list Q))) : list Z :=
 Section RebinND.
   Variable ax : forall T, ops T -> bool -> list T -> Z -> list T.   (* rebin_axis or rebin_axis_spec *)
   Variable dims_ok : list Z -> list Z -> bool.                      (* dims_ok_gen or dims_ok *)
+  Variable ops_elem : dkind -> ops Q.                               (* ops_gen or ops_elem *)
   Variable k : dkind.
   Variable sample : bool.
   Definition rebin1_with (x : list Q) (d : list Z) : rres :=
@@ -380,13 +402,13 @@ Section RebinND.
 End RebinND.
 
 (* M *)
-Definition rebin1 := rebin1_with (@rebin_axis) dims_ok_gen.
-Definition rebin2 := rebin2_with (@rebin_axis) dims_ok_gen.
-Definition rebin3 := rebin3_with (@rebin_axis) dims_ok_gen.
+Definition rebin1 := rebin1_with (@rebin_axis) dims_ok_gen ops_gen.
+Definition rebin2 := rebin2_with (@rebin_axis) dims_ok_gen ops_gen.
+Definition rebin3 := rebin3_with (@rebin_axis) dims_ok_gen ops_gen.
 (* S *)
-Definition rebin1_spec := rebin1_with (@rebin_axis_spec) dims_ok.
-Definition rebin2_spec := rebin2_with (@rebin_axis_spec) dims_ok.
-Definition rebin3_spec := rebin3_with (@rebin_axis_spec) dims_ok.
+Definition rebin1_spec := rebin1_with (@rebin_axis_spec) dims_ok ops_elem.
+Definition rebin2_spec := rebin2_with (@rebin_axis_spec) dims_ok ops_elem.
+Definition rebin3_spec := rebin3_with (@rebin_axis_spec) dims_ok ops_elem.
 
 Definition eqb_rres (tol : Q) (a b : rres) : bool :=
   match a, b with
